@@ -420,7 +420,8 @@ macro_rules! reduce_math {
                 Primitive::Or => fast_reduce(xs, 0.0.into(), fill, depth, or::$f, env)?,
                 Primitive::Min if TID == 0 && depth == 0 && xs.rank() == 1 && xs.meta.is_sorted_up() => {
                     let mut min = (xs.data.iter().find(|x| x.is_sortable()).copied())
-                        .unwrap_or(f64::NEG_INFINITY.into());
+                        .or_else(|| xs.data.first().copied())
+                        .unwrap_or(f64::INFINITY.into());
                     if let Some(fill) = fill {
                         min = min.min(fill);
                     }
@@ -428,7 +429,8 @@ macro_rules! reduce_math {
                 }
                 Primitive::Min if TID == 0 && depth == 0 && xs.rank() == 1 && xs.meta.is_sorted_down() => {
                     let mut min = (xs.data.iter().rfind(|&&x| x.is_sortable()).copied())
-                        .unwrap_or(f64::NEG_INFINITY.into());
+                        .or_else(|| xs.data.first().copied())
+                        .unwrap_or(f64::INFINITY.into());
                     if let Some(fill) = fill {
                         min = min.min(fill);
                     }
@@ -436,6 +438,7 @@ macro_rules! reduce_math {
                 }
                 Primitive::Max if TID == 0 && depth == 0 && xs.rank() == 1 && xs.meta.is_sorted_up() => {
                     let mut max = (xs.data.iter().rfind(|&&x| x.is_sortable()).copied())
+                        .or_else(|| xs.data.first().copied())
                         .unwrap_or(f64::NEG_INFINITY.into());
                     if let Some(fill) = fill {
                         max = max.max(fill);
@@ -444,6 +447,7 @@ macro_rules! reduce_math {
                 }
                 Primitive::Max if TID == 0 && depth == 0 && xs.rank() == 1 && xs.meta.is_sorted_down() => {
                     let mut max = (xs.data.iter().find(|x| x.is_sortable()).copied())
+                        .or_else(|| xs.data.first().copied())
                         .unwrap_or(f64::NEG_INFINITY.into());
                     if let Some(fill) = fill {
                         max = max.max(fill);
